@@ -60,15 +60,15 @@ PROPS = {
     "C14": P(["map"], 114, runs=(20000, 600000),
              rule="One client, 6-70 operations (Set, Get, Delete, Keys(prefix), reopen, buffer mutation after Set / of the slice returned by Get, and the same through the expapi handlers) over adversarial key tables (lengths around 36/48/191/255 bytes, keys that are prefixes of other keys, bytes 0x00-0xFF, URL-shaped keys with '#', empty key), values 0..3000 bytes (1 MiB thorough), backends memory / file system / encrypted; refinement against a Go map after every step.",
              require_probes=["C14/get-differs", "C14/keys-differs"], technique="deterministic simulation over a simulated disk: step-by-step refinement against a map model with reopen as an operation"),
-    "C15": P(["atomic"], 115, level="fault_enumeration", mode="mixed", runs=(8000, 300000), budget=(25, 600),
+    "C15": P(["atomic", "atomic", "crashy"], 115, level="fault_enumeration", mode="mixed", runs=(8000, 300000), budget=(25, 600),
              rule="(1) Cut-point sweep: value lengths {1,2,17,300,(4097)}, with and without a previous (shorter / longer) value, plain and encrypted: the write fails after every k in 0..len with ENOSPC / EIO or the process is killed after k bytes or at any operation boundary of the Set; restart; Get. (2) Interleavings: 2-4 clients x 2-6 operations on 1-2 keys, every disk call a yield point, writes split into chunks, random / sticky / PCT schedules, stalls, with and without the faults above. Oracles: torn-read (self-describing values) and porcupine register linearizability with nondeterministic outcome for failed or killed Sets.",
-             require_probes=["disk.crash@write", "disk.enospc@write", "C15/not-linearizable"], technique="deterministic simulation: syscall-level interleaving + exhaustive write cut points / kill points; porcupine linearizability of recorded histories"),
+             require_probes=["disk.crash@write", "disk.enospc@write", "C15/not-linearizable", "C15/served-torn"], technique="deterministic simulation: syscall-level interleaving + exhaustive write cut points / kill points; porcupine linearizability of recorded histories"),
     "C16": P(["conc"], 116, runs=(8000, 300000), budget=(20, 600), race=True,
              rule="2-4 clients on the same and different URIs and variants, GETs and unsafe methods, stale-while-revalidate entries so that background revalidations overlap the callers' use of returned responses, stall faults, callers poisoning the responses and requests they own. (a) sequential rules C01/C02/C04/C05 on every response, (b) snapshot of every returned header map at return vs end of run + poison tracking, (c) -race build with pairwise-parallel release of parked goroutines.",
              require_probes=["C16/returned-response-mutated", "C16/poison-leaked"], technique="deterministic simulation: seeded interleavings at seam granularity; ownership snapshots; Go race detector on pairwise-parallel steps"),
-    "C17": P(["crypt"], 117, level="fault_enumeration", mode="mixed", runs=(1500, 100000), budget=(25, 600),
+    "C17": P(["crypt", "tamper"], 117, level="fault_enumeration", mode="mixed", runs=(1500, 100000), budget=(25, 600),
              rule="(1) Sweep for entries <= 100 (484 thorough) bytes: every byte position x {xor 0x01, xor 0x80, xor random}, truncation to every length, extension by 1 and 16 bytes, emptying; wrong key on reopen; six ways of requesting encryption without a usable key; each for encryption enabled by option, DSN and environment. (2) concurrent Set/Get/Delete runs on the encrypted backend with a monitor on every simulated disk write (no 8-byte window of any plaintext value).",
-             require_probes=["disk.at-rest-flip1", "disk.at-rest-trunc", "config.unusable-key", "C17/plaintext-on-disk"], technique="deterministic simulation: at-rest corruption as a storage fault, exhaustive byte positions; plaintext monitor on every disk write"),
+             require_probes=["disk.at-rest-flip1", "disk.at-rest-trunc", "config.unusable-key", "C17/plaintext-on-disk", "C17/tamper-accepted", "disk.at-rest-corruption"], technique="deterministic simulation: at-rest corruption as a storage fault, exhaustive byte positions; plaintext monitor on every disk write"),
     "C18": P(["oic", "oic", "valid"], 118,
              rule="Requests with only-if-cached (alone and with max-stale / no-cache / max-age / min-fresh) against store states empty, fresh, stale, no-cache, must-revalidate, other variant only, corrupted entry (Conn-level mutation), SWR-eligible.",
              require_probes=["C18/network-touched"], technique="deterministic simulation: upstream-call attribution by goroutine lineage (foreground and background)"),
